@@ -226,11 +226,108 @@ fn recursion_through_blocks(w: &mut Worker) {
     }
 }
 
+/// A scoped function that calls itself in every pass of a loop of its own (two passes, so the loop has
+/// to go on after the inner invocation ran - and finished - the same loop): while, for-in, a while
+/// inside a for-in. The value is the bracketed tree of the calls.
+fn recursion_in_loops(w: &mut Worker) {
+    let depths: Vec<u64> = w.tier.pick((0..=3).collect(), (0..=6).collect());
+    let kinds: [(&str, &str); 4] = [
+        ("while", "i = set 0\nwhile less_than ${i} 2\ni = calc ${i} + 1\nCALL\nend"),
+        ("for", "two = array 1 2\nfor it in ${two}\nCALL\nend\nrelease ${two}"),
+        ("while-in-for", "two = array 1\nfor it in ${two}\ni = set 0\nwhile less_than ${i} 2\ni = calc ${i} + 1\nCALL\nend\nend\nrelease ${two}"),
+        ("while-with-condition-function", "i = set 0\nwhile less_than ${i} 2\ni = calc ${i} + 1\nif greater_than ${n} 0\nCALL\nend\nend"),
+    ];
+    fn tree(n: u64) -> String {
+        if n == 0 {
+            "x0".to_string()
+        } else {
+            let t = tree(n - 1);
+            format!("({})({})x{}", t, t, n)
+        }
+    }
+    for (kind, block) in kinds {
+        for &d in &depths {
+            let call = "if greater_than ${n} 0\nm = calc ${n} - 1\nr = srec ${m}\nacc = set \"${acc}(${r})\"\nend";
+            let text = format!(
+                "fn <scope> srec\nn = set ${{1}}\nacc = set \"\"\n{}\nreturn \"${{acc}}x${{n}}\"\nend\nkeep = set mine\nout = srec {}\nafter = set reached",
+                block.replace("CALL", call),
+                d
+            );
+            scale_case(w, &format!("recursion-in-loop {} depth {}", kind, d), &text, &[("out", Some(tree(d))), ("keep", Some("mine".into())), ("n", None), ("i", None), ("acc", None), ("after", Some("reached".into()))]);
+        }
+    }
+    // the recursive call in condition position, from inside the function's own for/in loop; the inner
+    // invocation returns from inside its loop (at the second item), the outer loop goes on to the third
+    for (form, open, close) in [
+        ("if", "if deep ${m}", "end"),
+        ("not", "r = not deep ${m}\nif not ${r}", "end"),
+        ("elseif", "if false\nelseif deep ${m}", "end"),
+        ("while", "go = set true\nwhile deep ${m}\nif not ${go}\ngoto :leave${n}\nend\ngo = set false", "end\n:leave${n}"),
+    ] {
+        for &d in &depths {
+            if form == "while" {
+                continue; // a label inside a function body with a variable in its name is not a label: kept out
+            }
+            let text = format!(
+                "fn <scope> deep\nn = set ${{1}}\nitems = array a b c\ncnt = set 0\nhits = set \"\"\nfor it in ${{items}}\ncnt = calc ${{cnt}} + 1\nif greater_than ${{n}} 0\nm = calc ${{n}} - 1\n{}\nhits = set \"${{hits}}${{it}}\"\n{}\nend\nif equals ${{n}} 0\nif equals ${{it}} b\nrelease ${{items}}\nreturn true\nend\nend\nend\nrelease ${{items}}\nreturn \"${{hits}}:${{cnt}}\"\nend\nkeep = set mine\nout = deep {}\nafter = set reached",
+                open, close, d
+            );
+            let exp = if d == 0 { "true".to_string() } else { "abc:3".to_string() };
+            scale_case(w, &format!("recursion-in-condition-from-loop {} depth {}", form, d), &text, &[("out", Some(exp)), ("keep", Some("mine".into())), ("hits", None), ("cnt", None), ("after", Some("reached".into()))]);
+        }
+    }
+}
+
+/// A command that reports an error inside a function body does not end the call: the body goes on, the
+/// function returns its value, a scoped function gives the caller's variables back, and the loop around
+/// the call goes on - whether the function was called as a statement, for its value, or in condition
+/// position (if / elseif / not / while).
+fn errors_inside_functions(w: &mut Worker) {
+    for failing in ["trigger_error boom", "q = array_pop nohandle", "q = array_join nohandle ,", "assert_error again"] {
+        for scoped in [false, true] {
+            for (form, call, check) in [
+                ("statement", "f ${it}", ""),
+                ("assign", "r = f ${it}", "got = set \"${got}${r}\""),
+                ("if", "if f ${it}\ngot = set \"${got}y\"\nend", ""),
+                ("elseif", "if false\nelseif f ${it}\ngot = set \"${got}y\"\nelse\ngot = set \"${got}n\"\nend", ""),
+                ("not", "r = not f ${it}", "got = set \"${got}${r}\""),
+                ("while", "once = set true\nwhile f ${it}\nif not ${once}\ngot = set \"${got}again\"\nend\nonce = set false\ngot = set \"${got}y\"\nlimit = calc ${limit} + 1\nif greater_than ${limit} 4\ngot = set \"${got}runaway\"\nend\nend", ""),
+            ] {
+                if form == "while" {
+                    continue; // a while whose condition is a function that always says true does not end: kept out
+                }
+                let head = if scoped { "fn <scope> f" } else { "fn f" };
+                let text = format!(
+                    "{}\nbefore = set ${{1}}\n{}\nafter_error = set reached\nreturn t${{1}}\nend\nkeep = set mine\ngot = set \"\"\nlimit = set 0\nlist = array a b\nseen = set \"\"\nfor it in ${{list}}\n{}\n{}\nseen = set \"${{seen}}${{it}}\"\nend\nrelease ${{list}}\nlast = set reached",
+                    head, failing, call, check
+                );
+                let got = match form {
+                    "statement" => "",
+                    "assign" => "tatb",
+                    "if" | "elseif" => "yy",
+                    _ => "falsefalse",
+                };
+                let mut expect: Vec<(&str, Option<String>)> = vec![("keep", Some("mine".into())), ("got", Some(got.to_string())), ("seen", Some("ab".into())), ("last", Some("reached".into()))];
+                if scoped {
+                    expect.push(("before", None));
+                    expect.push(("after_error", None));
+                } else {
+                    expect.push(("before", Some("b".into())));
+                    expect.push(("after_error", Some("reached".into())));
+                }
+                scale_case(w, &format!("error-inside-function {} {} failing {:?}", if scoped { "scoped" } else { "plain" }, form, failing), &text, &expect);
+            }
+        }
+    }
+}
+
 pub fn worker(w: &mut Worker) {
     let tier = w.tier;
     w.set_case_limit_ms(20_000);
     scale(w);
+    errors_inside_functions(w);
     recursion_through_blocks(w);
+    recursion_in_loops(w);
     let rig = FlowRig::new();
     let (devs, horizon) = tier.pick((2usize, 8usize), (3usize, 10usize));
     let maxblocks = tier.pick(1usize, 2usize);
@@ -530,7 +627,7 @@ pub fn crash_sig(_case: &Value, kind: &str) -> String {
     kind.to_string()
 }
 
-pub const RULE: &str = "family 1: one function (plain and <scope>) whose body is every block forest with 0..B blocks (if/elseif/else, while, for-in) with nothing, `return r1` or a bare `return` planted at every position of the body (depth-first, inside every nesting), with and without a trailing `return r9`; main sets a global and a pre-existing output variable and calls the function in every sequence of 1..2 call forms and selected triples from {statement, `x = f p`, `x = f \"q r\" s`, condition position `if f p`}. family 2: two functions where the outer one calls the inner one (as assignment, statement, in condition position, from a for body) and the inner one returns from inside for / while-in-if or calls itself guarded by an answer (also from inside a for body), all scoped/plain combinations. family 3: 'find first' functions (a loop that returns from a later iteration) called two or three times in every form, explored with 4-5 deviations. Every answer sequence (truth values, array lengths) with bounded deviations; each execution compared with the tree-walking interpreter with call semantics (arguments as global variables 1..n, scoped save/restore, value-less end leaves the output variable undefined). Function-body emits show ${1} and a global ${g} so argument binding and scope isolation are observable. The two corners the property leaves open are masked. family 4: a <scope> function whose locals are named like the caller's output variable, global and a fresh name, ending by reaching its end / bare return / value (also from inside a taken branch), called in five sequences of forms from a caller that had no value in the output variable. Scale family: plain and <scope> recursion of depth 10/70/300 (thorough: 1000, 3000), a function called from a loop 10..300 times, a function that returns from inside its own for/in loop called 2x10..300 times, a scoped function called from a plain one called from a loop; results and the variables that must stay undefined are compared with values computed in Rust Recursion through blocks: a function calling itself from the then / else / elseif / second elseif branch, an if without else, a nested if, a while body, an if inside a for body - no return inside the branch, the body goes on behind the block - depth 0..4 (thorough 9), plain (shared trace) and scoped (trace in the returned values)";
+pub const RULE: &str = "family 1: one function (plain and <scope>) whose body is every block forest with 0..B blocks (if/elseif/else, while, for-in) with nothing, `return r1` or a bare `return` planted at every position of the body (depth-first, inside every nesting), with and without a trailing `return r9`; main sets a global and a pre-existing output variable and calls the function in every sequence of 1..2 call forms and selected triples from {statement, `x = f p`, `x = f \"q r\" s`, condition position `if f p`}. family 2: two functions where the outer one calls the inner one (as assignment, statement, in condition position, from a for body) and the inner one returns from inside for / while-in-if or calls itself guarded by an answer (also from inside a for body), all scoped/plain combinations. family 3: 'find first' functions (a loop that returns from a later iteration) called two or three times in every form, explored with 4-5 deviations. Every answer sequence (truth values, array lengths) with bounded deviations; each execution compared with the tree-walking interpreter with call semantics (arguments as global variables 1..n, scoped save/restore, value-less end leaves the output variable undefined). Function-body emits show ${1} and a global ${g} so argument binding and scope isolation are observable. The two corners the property leaves open are masked. family 4: a <scope> function whose locals are named like the caller's output variable, global and a fresh name, ending by reaching its end / bare return / value (also from inside a taken branch), called in five sequences of forms from a caller that had no value in the output variable. Scale family: plain and <scope> recursion of depth 10/70/300 (thorough: 1000, 3000), a function called from a loop 10..300 times, a function that returns from inside its own for/in loop called 2x10..300 times, a scoped function called from a plain one called from a loop; results and the variables that must stay undefined are compared with values computed in Rust Recursion through blocks: a function calling itself from the then / else / elseif / second elseif branch, an if without else, a nested if, a while body, an if inside a for body - no return inside the branch, the body goes on behind the block - depth 0..4 (thorough 9), plain (shared trace) and scoped (trace in the returned values) Errors inside functions: 4 failing commands x plain / scoped x call as statement / for its value / if / elseif / not, inside a for body of two items: the body goes on, the value comes back, a scoped function gives the caller's variables back, the loop completes. Recursion in loops: a scoped function calling itself in both passes of a while / for-in / while inside for-in (value = the bracketed call tree, depth 0..3, thorough 6), and calling itself in condition position (if / not / elseif) from inside its own for-in loop, the inner invocation returning from inside its loop";
 pub const ASSUMPTIONS: &[&str] = &["spelling of fn/return keywords rotates over their aliases and full names", "loop variables after their loop and handle names are masked in the final variables"];
 pub const EXHAUSTIVE: bool = true;
 pub const WALL_CAP_S: (u64, u64) = (55, 2700);
